@@ -1,7 +1,7 @@
 (* Extraction of the executable model for the correspondence check.
    ExtrOcamlBasic only: bool, option, unit, list, prod, sumbool map to the OCaml
    natives; N, positive, Z, nat stay as extracted inductives; no Extract Constant. *)
-From SP Require Import Model.Impl Model.Spec Model.Typing Model.Template.
+From SP Require Import Model.Impl Model.Spec Model.Typing Model.Template Model.Scanner Model.Ansi Model.Cli.
 Require Extraction.
 Require ExtrOcamlBasic.
 Extraction Language OCaml.
@@ -23,7 +23,20 @@ Definition x_fwi_pure (E : Env) (t : template) (inputs : list (list str)) (seps 
   run_pure (impl_format_with_inputs E t inputs seps).
 Definition x_spec_fwi := spec_format_with_inputs.
 
+Definition x_template_parse := template_parse.
+Definition x_template_parse_with_debug := template_parse_with_debug.
+Definition x_parse_template := parse_template.
+Definition x_process_arg := process_arg.
+
+Definition x_strip_str := strip_str.
+Definition x_format_st (E : Env) (t : template) (x : str) (c : caches) : outcome str * caches :=
+  run_st (impl_format E t x) c.
+
+Definition x_cli_main := cli_main.
+
 Extraction "model.ml"
+  x_cli_main x_strip_str x_format_st
+  x_template_parse x_template_parse_with_debug x_parse_template x_process_arg
   x_infer x_well_typed x_last_sep x_format_pure x_spec_format x_fwi_pure x_spec_fwi
   x_run_pure_impl x_run_st_impl x_spec_run x_apply_range_str x_select_str empty_caches
   split join replace_plain sort_asc unique utf8 utf8_len is_ws valid.
